@@ -88,7 +88,8 @@ Definition xtn_mask (ids : bytes) (profile : N) (d : bytes) : bytes :=
 
 Record rtp_params := {
   rp_mkey : bytes; rp_msalt : bytes;            (* master key, 112-bit master salt *)
-  rp_conf : bool; rp_auth : bool; rp_tag : nat;
+  rp_conf : bool; rp_null : bool;           (* confidentiality service; NULL cipher (identity keystream) *)
+  rp_auth : bool; rp_tag : nat;
   rp_mki : bytes;
   rp_xtn_ids : bytes                             (* RFC 6904 ids; [] = none *)
 }.
@@ -119,7 +120,7 @@ Definition srtp_protect (q : rtp_params) (roc : N) (p : bytes) : bytes :=
       else p
     end in
   let payload := drop off p1 in
-  let enc := if rp_conf q then xor_bytes payload (cm_keystream (ke k) iv (length payload)) else payload in
+  let enc := if rp_conf q && negb (rp_null q) then xor_bytes payload (cm_keystream (ke k) iv (length payload)) else payload in
   let m := take off p1 ++ enc in
   let tag := if rp_auth q then take (rp_tag q) (hmac_sha1 (ka k) (m ++ be_bytes 4 roc)) else [] in
   m ++ rp_mki q ++ tag.
@@ -131,7 +132,7 @@ Definition srtcp_protect (q : rtp_params) (idx : N) (p : bytes) : bytes :=
   let ssrc := be32at p 4 in
   let iv := cm_iv (ks k) ssrc idx in
   let body := drop 8 p in
-  let enc := if rp_conf q then xor_bytes body (cm_keystream (ke k) iv (length body)) else body in
+  let enc := if rp_conf q && negb (rp_null q) then xor_bytes body (cm_keystream (ke k) iv (length body)) else body in
   let trailer := be_bytes 4 ((if rp_conf q then 2 ^ 31 else 0) + idx) in
   let m := take 8 p ++ enc ++ trailer in
   m ++ rp_mki q ++ take (rp_tag q) (hmac_sha1 (ka k) m).
